@@ -81,15 +81,15 @@ Proof.
     { destruct orig as [o|]; apply intersect_some in Erc; destruct Erc as [Hn Hi]; (split; [exact Hn|]);
         intros p; rewrite Hi; cbn [ex_has]; tauto. }
     destruct Hrc as [Hrcne Hrcin].
-    destruct (rs_add rsfuel [] rc) as [v0|] eqn:Ev0.
+    destruct (rs_add (r_fuel st) [] rc) as [v0|] eqn:Ev0.
     2:{ injection H as <- _ _. cbn [r_fault set_fault] in Hf. discriminate. }
     destruct (rs_add_inv _ _ _ _ inv_nil Hrcne Ev0) as [Hinv0 Hcov0].
-    destruct (if mask then rs_sub_vis (Some v0) (t_kids w) else Some v0) as [v1|] eqn:Ev1.
+    destruct (if mask then rs_sub_vis (r_fuel st) (Some v0) (t_kids w) else Some v0) as [v1|] eqn:Ev1.
     2:{ injection H as <- _ _. cbn [r_fault set_fault] in Hf. discriminate. }
     assert (Hv1 : Inv v1 /\ forall p, covered v1 p <->
                     cell_in rc p /\ (mask = true -> vis_cover (t_kids w) p = false)).
     { destruct mask.
-      - destruct (rs_sub_vis_exact (t_kids w) v0 v1 Hinv0) as [Hi Hcv]; [|exact Ev1|].
+      - destruct (rs_sub_vis_exact (rfuel:=(r_fuel st)) (t_kids w) v0 v1 Hinv0) as [Hi Hcv]; [|exact Ev1|].
         + apply Forall_forall. intros c Hc0. apply Hvn.
           eapply subtree_trans; [apply subtree_kid; exact Hc0|exact Hsw].
         + split; [exact Hi|]. intros p. rewrite Hcv, Hcov0, covered_nil, <- vis_cover_false_iff. tauto.
@@ -103,7 +103,7 @@ Proof.
       unfold t_id in Hfi; cbn [t_info] in Hfi. rewrite Hi, Hfw in Hfi. injection Hfi as Hw.
       apply Hcov1 in Hp. destruct Hp as [Hp _]. apply Hrcin in Hp. destruct Hp as [Hp _].
       unfold self in Hp. rewrite Hw in Hp. exact Hp. }
-    pose proof (scroll_region_spec id _ _ T T D Hkc Hu Hvn pth v1 Hpath Hinv1 Hvself) as Hreg.
+    pose proof (scroll_region_spec (rfuel:=(r_fuel st)) id _ _ T T D Hkc Hu Hvn pth v1 Hpath Hinv1 Hvself) as Hreg.
     rewrite Hchain in H.
     (* the characterisation of scrollV *)
     assert (HVdesc : forall q, scrollV T id orig mask q <->
@@ -113,7 +113,7 @@ Proof.
         exists p. split; [exact Hd|]. apply Hcov1. split; [|exact Hm]. apply Hrcin. tauto.
       - intros (p & Hd & Hp). apply Hcov1 in Hp. destruct Hp as [Hp Hm]. apply Hrcin in Hp.
         exists w, p. tauto. }
-    destruct (scroll_region no_defects (rev (T :: pth)) v1 0 0) as [| |V a b].
+    destruct (scroll_region no_defects (r_fuel st) (rev (T :: pth)) v1 0 0) as [| |V a b].
     + injection H as <- _ _. cbn [r_fault set_fault] in Hf. discriminate.
     + injection H as <- <- <-. apply Hnoop. intros q HV. apply HVdesc in HV.
       destruct HV as (p & Hd & _). destruct Hreg as [Hv|Hnone]; [congruence|].
